@@ -292,7 +292,7 @@ def run(tier, r):
         if len(samples) < 3 and n in (2, 4, 5) and not any(s["n"] == n for s in samples):
             samples.append(info)
     stats["wall_s"] = round(time.time() - t0, 1)
-    return {"explored": len(inst), "distinct_nontrivial": nontrivial,
+    return {"explored": sum(stats["instances_per_dimension"].values()) if stats.get("stopped_early") else len(inst), "distinct_nontrivial": nontrivial,
             "rule": "instances = distinct (dimension, number) pairs: 25 seeded numbers per dimension in quick, all 400 "
                     "in thorough; per instance %d/%d random box points (+ a neighbour 1e-9 away), %d/%d directions "
                     "per attraction sphere with interior and centre probes. Non-trivial: the probes hit the "
